@@ -6,8 +6,8 @@ import (
 	"path/filepath"
 	"runtime"
 	"sync"
-	"syscall"
 	"sync/atomic"
+	"syscall"
 	"testing"
 	"time"
 
@@ -119,7 +119,7 @@ end
 func init() {
 	register(&Prop{
 		ID:   "C17",
-		Rule: "request histories on pools of size (1,2),(1,3),(2,3),(2,4),(3,6): start request (healthy / rule error / panicking injected function / type fault outside the self-recovering constructs / missing name / store into a nil map / wrong key kind / out-of-range element store and read / a healthy request whose data map also holds a nil value and an empty key (kind 12) / a request with a nil data map (kind 11, fails on the missing names without parking) / a failing child of the conc block in which every request parks (kind 10) / a healthy request that injects its own function, map and slice under names and Go types of values the pool was constructed with; every request also binds a local and writes its own map and slice) through any of the 24 pool execute methods, release the k-th outstanding request; up to max+4 outstanding, every request parks inside its rule on a Hold gate keyed by its id; oracle after every step: the number of requests parked inside rules equals min(max, outstanding) within the bound (waiters proceed, nothing lost) and never exceeds max, every finished request returned its own id (two in-flight requests on one instance would overwrite each other's injected object), a request never fails because the pool is busy, and after the history max requests park simultaneously again. 8% of the cases (2% in the thorough tier) are hand-over storms instead: max-1 requests stay inside their rule, the last instance is passed along a chain of 100-800 (thorough 1500) requests, each issued a generated number of spin iterations after its predecessor is let go (at most four storms at a time across the shard processes); every next request must enter its rule within the hang bound after the previous one returned and must return its own id. 3% of the cases are hammers: 4-32 clients issue 100-600 (thorough 1500) short ungated requests each, at most max may be inside a rule at any time, every request returns its own id, and afterwards max requests must be inside their rule together. Non-trivial: at some point more than max requests are outstanding and a failing or panicking request finished before the final probe, or a storm of >= 300 hand-overs; distinct by case hash",
+		Rule: "request histories on pools of size (1,2),(1,3),(2,3),(2,4),(3,6): start request (healthy / rule error / panicking injected function / type fault outside the self-recovering constructs / missing name / store into a nil map / wrong key kind / out-of-range element store and read / a healthy request whose data map also holds a nil value and an empty key (kind 12) / a request with a nil data map (kind 11, fails on the missing names without parking) / a failing child of the conc block in which every request parks (kind 10) / a healthy request that injects its own function, map and slice under names and Go types of values the pool was constructed with; every request also binds a local and writes its own map and slice) through any of the 24 pool execute methods, release the k-th outstanding request; up to max+4 outstanding, every request parks inside its rule on a Hold gate keyed by its id; oracle after every step: the number of requests parked inside rules equals min(max, outstanding) within the bound (waiters proceed, nothing lost) and never exceeds max, every finished request returned its own id (two in-flight requests on one instance would overwrite each other's injected object), a request never fails because the pool is busy, and after the history max requests park simultaneously again. 8% of the cases (2% in the thorough tier) are hand-over storms instead: max-1 requests stay inside their rule, the last instance is passed along a chain of 100-800 (thorough 1500) requests, each issued a generated number of spin iterations after its predecessor is let go (at most four storms at a time across the shard processes); every next request must enter its rule within the hang bound after the previous one returned and must return its own id. 3% of the cases are hammers: 4-32 clients issue 100-600 (thorough 1500) short ungated requests each, at most max may be inside a rule at any time, every request returns its own id, and afterwards max requests must be inside their rule together, three times in a row; pool sizes include (40,41), (33,34), (2,65), (31,33). Non-trivial: at some point more than max requests are outstanding and a failing or panicking request finished before the final probe, or a storm of >= 300 hand-overs; distinct by case hash",
 		New:  func() interface{} { return &C17Case{} },
 		Gen: func(t *rapid.T) interface{} {
 			c := &C17Case{}
@@ -128,14 +128,18 @@ func init() {
 			c.PoolMin, c.PoolMax = s[0], s[1]
 			c.EM = uni(t, "em", 1, 4)
 			if pct(t, "hammer", 3) {
-				sizes := [][2]int64{{1, 4}, {1, 3}, {2, 4}, {1, 2}}
-				sz := sizes[uni(t, "hammer_size", 0, 3)]
+				sizes := [][2]int64{{1, 4}, {1, 3}, {2, 4}, {1, 2}, {40, 41}, {33, 34}, {2, 65}, {31, 33}}
+				sz := sizes[uni(t, "hammer_size", 0, 7)]
 				c.PoolMin, c.PoolMax = sz[0], sz[1]
 				hi := 600
 				if thorough() {
 					hi = 1500
 				}
 				c.Hammer = &C17Hammer{Clients: uni(t, "hammer_clients", 4, 32), Reqs: uni(t, "hammer_reqs", 100, hi), Salt: uni(t, "hammer_salt", 0, 999)}
+				if c.PoolMax > 8 {
+					// large pools: fewer short requests, the waves of max simultaneous requests matter
+					c.Hammer.Reqs = uni(t, "hammer_reqs_big", 5, 60)
+				}
 				return c
 			}
 			stormPct := 8
@@ -611,41 +615,50 @@ func checkC17Hammer(c *C17Case, x *Ctx) {
 		x.Violation("over-capacity", "%d requests were inside rules simultaneously on a pool of max %d", maxIn, c.PoolMax)
 		return
 	}
-	// the pool can still serve max simultaneous requests
-	pdone := make(chan gx.Result, c.PoolMax)
-	for i := int64(0); i < c.PoolMax; i++ {
-		go func(i int64) {
-			pdone <- gx.OnPool(p, fullCall("Execute", []string{"hold", "aux"}, 0), map[string]interface{}{"who": &Payload{Id: probeBase + i}}, &engine.Stag{})
-		}(i)
-	}
-	ok := true
-	for i := range probe {
-		if !c17Await(&probe[i].entered, x) {
-			ok = false
-			break
+	// the pool can still serve max simultaneous requests - three times in a row, so that every
+	// instance has been handed out and taken back while all others were out
+	for wave := 0; wave < 3; wave++ {
+		for i := range probe {
+			probe[i] = c17Slot{}
 		}
-	}
-	for i := range probe {
-		atomic.StoreInt32(&probe[i].release, 1)
-	}
-	if !ok {
-		x.Violation("capacity-lost", "after %d clients x %d short requests, fewer than max=%d requests can be inside their rule together: instances were lost", hm.Clients, hm.Reqs, c.PoolMax)
-		return
-	}
-	for i := int64(0); i < c.PoolMax; i++ {
-		select {
-		case r := <-pdone:
-			if r.Panic != "" || r.Err != nil {
-				x.Violation("hammer-result", "probe request returned err=%v panic=%q", r.Err, truncate(r.Panic, 200))
+		pdone := make(chan gx.Result, c.PoolMax)
+		for i := int64(0); i < c.PoolMax; i++ {
+			go func(i int64) {
+				pdone <- gx.OnPool(p, fullCall("Execute", []string{"hold", "aux"}, 0), map[string]interface{}{"who": &Payload{Id: probeBase + i}}, &engine.Stag{})
+			}(i)
+		}
+		ok := true
+		for i := range probe {
+			if !c17Await(&probe[i].entered, x) {
+				ok = false
+				break
+			}
+		}
+		for i := range probe {
+			atomic.StoreInt32(&probe[i].release, 1)
+		}
+		if !ok {
+			x.Violation("capacity-lost", "after %d clients x %d short requests (wave %d), fewer than max=%d requests can be inside their rule together: instances were lost", hm.Clients, hm.Reqs, wave, c.PoolMax)
+			return
+		}
+		for i := int64(0); i < c.PoolMax; i++ {
+			select {
+			case r := <-pdone:
+				if r.Panic != "" || r.Err != nil {
+					x.Violation("hammer-result", "probe request returned err=%v panic=%q", r.Err, truncate(r.Panic, 200))
+					return
+				}
+			case <-time.After(hangBound()):
+				x.Violation("hammer-stuck", "a probe request did not return after it was let go")
 				return
 			}
-		case <-time.After(hangBound()):
-			x.Violation("hammer-stuck", "a probe request did not return after it was let go")
-			return
 		}
 	}
 	if atomic.LoadInt64(&maxIn) > c.PoolMax {
 		x.Violation("over-capacity", "%d requests were inside rules simultaneously on a pool of max %d", maxIn, c.PoolMax)
+	}
+	if c.PoolMax > 32 {
+		x.Class("hammer-on-a-pool-with-more-than-32-instances")
 	}
 }
 
